@@ -119,3 +119,50 @@ impl LuaIndex for DiagnosticIndex {
         self.file_diagnostic_enabled.clear();
     }
 }
+
+#[cfg(feature = "verif-hooks")]
+impl DiagnosticIndex {
+    pub(crate) fn verif_sizes(&self) -> Vec<(&'static str, usize)> {
+        vec![
+            ("diagnostic_actions", self.diagnostic_actions.len()),
+            (
+                "diagnostic_actions.items",
+                self.diagnostic_actions.values().map(|v| v.len()).sum(),
+            ),
+            ("diagnostics", self.diagnostics.len()),
+            (
+                "diagnostics.items",
+                self.diagnostics.values().map(|v| v.len()).sum(),
+            ),
+            (
+                "file_diagnostic_disabled",
+                self.file_diagnostic_disabled.len(),
+            ),
+            (
+                "file_diagnostic_enabled",
+                self.file_diagnostic_enabled.len(),
+            ),
+        ]
+    }
+
+    pub(crate) fn verif_file_refs(&self, file_id: FileId) -> Vec<(&'static str, usize)> {
+        vec![
+            (
+                "diagnostic_actions",
+                self.diagnostic_actions.contains_key(&file_id) as usize,
+            ),
+            (
+                "diagnostics",
+                self.diagnostics.contains_key(&file_id) as usize,
+            ),
+            (
+                "file_diagnostic_disabled",
+                self.file_diagnostic_disabled.contains_key(&file_id) as usize,
+            ),
+            (
+                "file_diagnostic_enabled",
+                self.file_diagnostic_enabled.contains_key(&file_id) as usize,
+            ),
+        ]
+    }
+}
